@@ -133,7 +133,7 @@ def main():
         "engines": [{"name": "symgo", "path": "/verif/engine", "serves_properties": sorted(CLAIMS.keys()),
                      "kind_free_text": "path-forking symbolic executor for Go SSA (golang.org/x/tools v0.29.0) with an SMT-LIB2 back end (z3 5.1.0 over a pipe, push/pop); harnesses are in-package Go files under /verif/harness injected by overlay"}],
         "checks": checks,
-        "notes": "All checks are bounded (see evidence bounds per harness); genuine defects found are repaired in /repo by 'fix:' commits and listed as fixed in /verif/known_findings.json. Tiers: the thorough command runs the quick grids plus deeper grids for the properties whose deeper grids ran to completion, clean, on the unchanged tree (C07, C08, C13, C15, C16, C17, C19, C20); for the other properties the deeper grids did not finish inside the cap or could not be run in the time available and are kept unregistered (tier deep in engine/specs.go), so their thorough command runs the quick grids: a bound is registered only after it has run clean (DESIGN.md 13.1).",
+        "notes": "All checks are bounded (see evidence bounds per harness); genuine defects found are repaired in /repo by 'fix:' commits and listed as fixed in /verif/known_findings.json. Tiers: the thorough command runs the quick grids plus deeper grids for the properties whose deeper grids ran to completion, clean, on the unchanged tree (C07, C08, C13, C15, C16, C17, C19, C20; for C01, C02, C09, C18 the concrete-key-set (L3) part of the deeper grids); for the other properties and parts the deeper grids did not finish inside the cap or could not be run in the time available and are kept unregistered (tier deep in engine/specs.go), so their thorough command runs the quick grids: a bound is registered only after it has run clean (DESIGN.md 13.1).",
         "not_applicable": na,
     }
     json.dump(m, open("/verif/MANIFEST.json", "w"), indent=1)
